@@ -615,6 +615,10 @@ Value Search::search(Position& position, Depth depth, Value alpha, Value beta,
         }
     }
 
+    // every move was skipped by futility pruning, so no move is expected
+    // to raise alpha: fail low instead of returning -VALUE_INFINITE
+    if (bestValue == -VALUE_INFINITE) bestValue = alpha;
+
     if (best_move == NO_MOVE)
     {
         best_move = begin[0];
